@@ -28,6 +28,16 @@ CLAIMS["C12"] = ("must-pass owner-equality guard with signer provenance (interpr
     "Static decision of the authorisation shape: every handler whose request names a vault/locker/lend/borrow/order id passes record.owner == signer on all success paths, the signer being traced from the request's GetSigners field through keeper parameters at every call site; each of the 20 custom contract-message handlers reaches keeper code on comdex-1 / comdex-test3 only behind sender-parameter == governance address (same index on both chains); kill switch only behind Admin(signer); no error branch of a handler returns a known-nil error; no id of one kind is passed where another kind is expected (catches owner checks against the wrong record, swapped app/pair ids). Quantifies over all handlers and paths, which per-case tests cannot. NOT covered: 'a rejected attempt changes nothing' (SDK atomicity, trusted); farm positions and limit bids are keyed by the signer and are covered by construction, not by an equality test; identifier kinds are inferred from names and are silent when a name is generic.",
     "DESIGN.md §3 C12")
 
+CLAIMS["C01"] = ("counter-balance data-flow, effect co-occurrence (books twins) with expression-identity amount matching, stale-read analysis, unit-context check",
+    "Static decision of the bookkeeping shape (not the sums): on every success path of every unit touching the vault counter, increments minus decrements equal creations minus deletions; in every vault handler each custody movement (collateral in/out, debt mint/burn) has its totals update and vault-record change on the same path and every booked amount is the very amount moved (expression identity, locals resolved flow-sensitively); no value read from a vault before a call that may rewrite it is used afterwards; the per-vault sweep units isolate their writes. NOT covered: the numeric identity sum(vaults) = custody balance, unsolicited transfers, the auction-settlement side of the totals.",
+    "DESIGN.md §3 C01")
+CLAIMS["C02"] = ("expression-identity matching of minted / paid-out / recorded / burnt amounts; who-may-mint call-site rule",
+    "Static decision that in every vault handler the amount minted, the amount recorded as new principal and the amounts handed out are the same value or its stated split (user = minted - collector share; share derived from the minted amount and DrawDownFee), that every burn retires exactly the recorded principal reduction, and that vault-module debt is minted nowhere else. NOT covered: supply = sum of principal as a number, the cross-decimal conversion arithmetic, auction-settlement burns.",
+    "DESIGN.md §3 C02")
+CLAIMS["C03"] = ("must-pass comparison guards with comparator strictness (finite orderings), interprocedural; stale-argument and totals-twin rules",
+    "Static decision that the three vault limits are enforced with the right strictness on every path that needs them: the ratio check succeeds only through ratio >= minimum; every mint / collateral release from a vault that stays open needs a successful ratio check against the product's MinCr computed from the current vault record; every mint passes total <= DebtCeiling where the total includes the mint and is kept exact by the handlers; creation and repay pass principal >= DebtFloor; price errors propagate. Values are touched only through comparisons so the implied orderings are exact. NOT covered: whether truncation lets a boundary input slip; the numeric inequality over prices and decimals.",
+    "DESIGN.md §3 C03")
+
 NOT_APPLICABLE = {
     "C18": "purely numeric relations between evaluations of accrual/rate functions (non-negativity, monotonicity, sub-additivity, continuity; one path through float64 math.Pow); no guard, pairing, provenance or ordering is a necessary condition of them, so no sound static argument in reach applies (DESIGN.md §3 C18, §4).",
 }
